@@ -648,6 +648,8 @@ def b_isinstance(it, args, kwargs, fr, node):
             if 'isinstance!' in v.fields:
                 return v.fields['isinstance!'](c)
             return v.cls is not None and isinstance(c, type) and issubclass(v.cls, c)
+        if isinstance(v, VSeq):
+            return c is list or any(isinstance(k, type) and issubclass(k, c) for k in v.isinstance_of)
         if isinstance(v, VBytes):
             return c in (bytes, bytearray, memoryview) and (v.kind == c.__name__ or (c is bytes and v.kind == 'bytes'))
         if is_sym(v):
